@@ -257,6 +257,44 @@ static void run_sched(void *va, FILE *out) {
     fprintf(out, verdict ? "DIFFERENT" : "ok");
 }
 
+/* ------------------------------------------------------------------ D: free-running create / use / destroy of rs_vand
+   instances (no barriers): the last destroy of one thread keeps meeting the first create of another, so the shared,
+   reference-counted GF tables are torn down and rebuilt thousands of times while others are inside create or encode */
+typedef struct { int tid, iters, bad; } churn_a;
+static void *churnrs_worker(void *va) {
+    churn_a *a = va;
+    unsigned char data[96], ref[3][2][HDR + 64]; int have_ref = 0; (void)ref;
+    for (int i = 0; i < 96; i++) data[i] = (unsigned char)(i * 11 + a->tid);
+    unsigned char first[HDR + 200]; uint64_t first_len = 0;
+    for (int it = 0; it < a->iters; it++) {
+        struct ec_args ar; memset(&ar, 0, sizeof ar); ar.k = 2 + (a->tid & 1); ar.m = 2; ar.hd = 2; ar.ct = CHKSUM_CRC32;
+        int d = liberasurecode_instance_create(EC_BACKEND_LIBERASURECODE_RS_VAND, &ar);
+        if (d <= 0) { a->bad++; continue; }
+        char **ed = NULL, **ep = NULL; uint64_t fl = 0;
+        if (liberasurecode_encode(d, (char *)data, 96, &ed, &ep, &fl) != 0) a->bad++;
+        else {
+            /* the second parity (a genuine field multiplication) must be the same every time */
+            if (!have_ref) { memcpy(first, ep[1], fl < sizeof first ? fl : sizeof first); first_len = fl; have_ref = 1; }
+            else if (fl != first_len || memcmp(first, ep[1], fl < sizeof first ? fl : sizeof first)) a->bad++;
+            char *fr[8]; int n = 0; for (int i = 1; i < ar.k; i++) fr[n++] = ed[i]; fr[n++] = ep[0]; fr[n++] = ep[1];
+            char *od = NULL; uint64_t ol = 0;
+            if (liberasurecode_decode(d, fr, n, fl, 0, &od, &ol) != 0) a->bad++;
+            else { if (ol != 96 || memcmp(od, data, 96)) a->bad++; liberasurecode_decode_cleanup(d, od); }
+            liberasurecode_encode_cleanup(d, ed, ep);
+        }
+        if (liberasurecode_instance_destroy(d) != 0) a->bad++;
+    }
+    return NULL;
+}
+typedef struct { int threads, iters; } churnrs_t;
+static void run_churnrs(void *va, FILE *out) {
+    churnrs_t *c = va; pthread_t th[MAXT]; churn_a a[MAXT]; int bad = 0;
+    if (g_progress) snprintf(g_progress, 200, "in free-running create/encode/decode/destroy of rs_vand instances on %d threads", c->threads);
+    for (int t = 0; t < c->threads; t++) { a[t] = (churn_a){ t, c->iters, 0 }; pthread_create(&th[t], NULL, churnrs_worker, &a[t]); }
+    for (int t = 0; t < c->threads; t++) { pthread_join(th[t], NULL); bad += a[t].bad; }
+    if (bad) fprintf(out, "DIFFERENT %d", bad); else fprintf(out, "ok");
+}
+
 void suite_conc(int tier) {
 #if defined(__SANITIZE_THREAD__)
     int tsan = 1;
@@ -284,6 +322,13 @@ void suite_conc(int tier) {
         res_end(bad == 0 ? "ok" : "DIFFERENT");
         if (bad) oracle_fail("C18", "%d failures in concurrent first-create / last-destroy of rs_vand instances (%d threads)", bad, T);
         stat_add("conc.ownrs_runs", 1);
+    }
+    cfg_release_all();
+    for (unsigned ti = 0; ti < (tier ? 4u : 2u); ti++) {
+        churnrs_t c = { tcounts[ti], tsan ? (tier ? 3000 : 600) : (tier ? 30000 : 5000) };
+        op_begin("conc churnrs %d", c.threads); op_sep();
+        if (tsan) { run_churnrs(&c, stdout); res_nl(); } else guarded(run_churnrs, &c);     /* a crash of the child is the result */
+        stat_add("conc.churnrs_iterations", (long)c.threads * c.iters);
     }
     for (unsigned ti = 0; ti < (tier ? 5u : 3u); ti++) {
         int T = tcounts[ti];
